@@ -3,7 +3,7 @@ import engine
 
 OPS = ["row_swap", "col_swap", "col_swap_in_rows", "row_add", "row_add_offset", "row_clear_offset", "xor_bits", "clear_bits",
        "read_bits", "apply_p_left", "apply_p_left_trans", "apply_p_right", "apply_p_right_trans", "apply_p_right_trans_tri"]
-PROOFS = []
+PROOFS = ["Properties_C13"]
 
 
 def run(res, tier, seed):
@@ -11,6 +11,7 @@ def run(res, tier, seed):
                        "offsets, LAPACK permutations identity/single swap/full random/shorter than the dimension; non-trivial "
                        "unless the matrix is zero or 1x1; distinct by (op, shape class, content kind, parameters class)")
     engine.proof_part(res, PROOFS)
+    engine.corpus(res, "C13")
     n = 150 if tier == "quick" else 1500
     engine.run_ops(res, "C13", OPS, seed, n, 130 if tier == "quick" else 300)
 
